@@ -18,3 +18,9 @@ claim('C12', 'ast field-set coherence of CircuitOperation (replace/eq/hash/JSON/
       'C12.c fields written only in __init__; C12.d key protocols of Moment/AbstractCircuit/wrappers visit every child via the protocol '
       'function and classically-controlled ops cover conditions and sub-operation; C12.e parameter triple of CircuitOperation',
       'equality with the unrolled circuit, key scoping semantics, repeat_until evaluation')
+claim('C16', 'ast writer/reader/schema table agreement (isinstance chain vs oneof chain vs program.proto), attribute->keyword flow, dispatch-order and constants-table pairing rules',
+      'C16.a gate kinds: written fields in schema, written sub-fields read and read sub-fields written, class written == class rebuilt, '
+      'attribute->same keyword, unknown kinds raise; C16.b no class shadowed by a base class in dispatch; C16.c tag/sweep/arg/device '
+      'writer-reader tables agree; C16.d constants append paired with index registration under a failed lookup; C16.d2 constants keyed '
+      'by the domain object; C16.e/e2 attribute coverage of writer and reader',
+      'float32 rounding, bit-packing arithmetic of results, unit conversion arithmetic of sweeps, device-spec semantics, v1 format')
